@@ -1,5 +1,7 @@
 import Pyrtma.Drv.Util
 import Pyrtma.Spec.Registry
+import Pyrtma.Model.ResRegex
+import Pyrtma.Model.ImportPath
 /-! Line-protocol driver for M7 (grammar: harness/parser_corr.py). -/
 namespace Pyrtma.Drv.Registry
 open Pyrtma.Registry Pyrtma.Drv
@@ -42,8 +44,59 @@ def parseImp (s : String) : Imp :=
 def pairOf (tok : String) : String × Option Int := let (n, v) := splitEq tok; (n, optInt v)
 def pairObs (tok : String) : String × Int := let (n, v) := splitEq tok; (n, intOf v)
 
+/-- `a:b` or `none` -/
+def parsePair (s : String) : Option (Nat × Nat) :=
+  match s.splitOn ":" with
+  | [a, b] => some (natOf a, natOf b)
+  | _ => none
+
+def showOptPair (o : Option (Nat × Nat)) : String :=
+  match o with | some (a, b) => s!"{a}:{b}" | none => "none"
+
+/-- one `_RESERVED_` entry alone: `re.search` of the real pattern and the real `handle_reserve` against
+`ResRegex.reRange` (the regular expression with backtracking), `rangeSearch` (the scan) and `handle (.reserved …)` -/
+def rxCase (id : String) (maxMsg : Int) (tok reObs implObs : String) : List String :=
+  let e := parseEntry tok
+  let cfg : Cfg := { coreOn := false, maxMsg := maxMsg }
+  let reLines := match e with
+    | .text s =>
+      let a := ResRegex.reRange s
+      let b := rangeSearch s
+      [if showOptPair a == reObs && showOptPair b == reObs then s!"{id} CORR ok"
+       else s!"{id} CORR diff regex reRange={showOptPair a} rangeSearch={showOptPair b} re.search={reObs}"]
+    | _ => []
+  let m := match handle cfg false (.reserved (some [e])) {} with
+    | .ok st => "ok:" ++ (if st.msgs.isEmpty then "-" else String.intercalate "," (st.msgs.map (fun p => s!"{p.1}={p.2}")))
+    | .error x => "err:" ++ x.cls
+  reLines ++ [if m == implObs then s!"{id} CORR ok" else s!"{id} CORR diff reserve model={m} impl={implObs}",
+              s!"{id} PROP C12 skip", s!"{id} INFO model={m}"]
+
+/-- the character classes of the pattern over every code point: `pts` = the code points the real `re` matches -/
+def clsCase (id kind : String) (pts : List Nat) : List String :=
+  let test : Char → Bool := if kind == "space" then isWs else isDigit
+  let bad := (List.range 0x110000).filter (fun n =>
+    if 0xd800 ≤ n && n ≤ 0xdfff then false else test (Char.ofNat n) != pts.contains n)
+  [if bad.isEmpty then s!"{id} CORR ok" else s!"{id} CORR diff class {kind} differs at code points {bad.take 20}",
+   s!"{id} PROP C12 skip"]
+
+/-- an absolute, already normalised path text (6 hex digits per character) as components -/
+def apathOf (hex : String) : ImportPath.APath :=
+  (ImportPath.parsePath (unhex hex.toList)).parts
+
+def textOf (hex : String) : List Char := if hex == "-" then [] else unhex hex.toList
+
 structure Case where
   id : String := ""
+  special : List String := []
+  pmode : Bool := false                          -- path-level case: the model resolves the import texts itself
+  paths : Array ImportPath.APath := #[]
+  itexts : Array (List (List Char)) := #[]
+  dirs : List ImportPath.APath := []
+  links : List (ImportPath.APath × ImportPath.APath) := []
+  others : List ImportPath.APath := []
+  cwd : ImportPath.APath := []
+  rootText : List Char := []
+  corePath : ImportPath.APath := []
   cfg : Cfg := { coreOn := false, maxMsg := 10000 }
   root : Nat := 0
   core : Nat := 0
@@ -68,12 +121,35 @@ def flawTags (f : Flaws) : String :=
     ("fileFormat", f.fileFormat), ("emptyFile", f.emptyFile), ("reservedAsName", f.reservedAsName)].filterMap
       (fun p => if p.2 then some p.1 else none))
 
+def showImp : Imp → String
+  | .file n => s!"f{n}" | .missing => "missing" | .dir => "dir" | .badSuffix => "badsuffix"
+
+def pinputOf (c : Case) : ImportPath.PInput :=
+  let n := c.files.size
+  { cfg := c.cfg,
+    files := (List.range n).map (fun k =>
+      { path := c.paths.getD k [], file := c.files.getD k {}, importTexts := c.itexts.getD k [] }),
+    dirs := c.dirs, links := c.links, others := c.others, cwd := c.cwd, rootText := c.rootText, corePath := c.corePath }
+
 def finishCase (c : Case) : List String :=
-  let inp : Input := { cfg := c.cfg, files := c.files.toList, root := c.root, core := c.core }
+  if !c.special.isEmpty then c.special else
+  let pin := pinputOf c
+  let inp : Input := if c.pmode then ImportPath.lower pin
+                     else { cfg := c.cfg, files := c.files.toList, root := c.root, core := c.core }
   let m := parse inp
   let mtxt := match m with | .ok st => "ok " ++ showSt st | .error e => "err " ++ e.cls
   let itxt := if c.obsOk then "ok " ++ showSt c.obs else "err " ++ c.obsCls
-  let corr := if mtxt == itxt then s!"{c.id} CORR ok" else s!"{c.id} CORR diff model=[{mtxt}] impl=[{itxt}]"
+  -- two OS errors share `Imp.missing` with FileNotFoundError (header of Model/ImportPath.lean): `osErrorClass` names them
+  let osClasses : List String := if !c.pmode then [] else
+    pin.files.flatMap (fun pf => pf.importTexts.filterMap (fun t =>
+      match ImportPath.resolveImp pin.fs pf.path.dropLast t with
+      | .missing => some ("err " ++ ImportPath.osErrorClass pin.fs pf.path.dropLast t)
+      | _ => none))
+  let same := mtxt == itxt || (mtxt == "err FileNotFoundError" && osClasses.contains itxt)
+  let low := if c.pmode then
+      " lowered=" ++ String.intercalate "|" (inp.files.map (fun f => String.intercalate "," (f.imports.map showImp))) ++ s!" root={inp.root}"
+    else ""
+  let corr := if same then s!"{c.id} CORR ok" else s!"{c.id} CORR diff model=[{mtxt}] impl=[{itxt}]{low}"
   let o : Obs := if c.obsOk then .ok c.obs else .err c.obsCls
   let evs := flatten inp
   let merr := match m with | .ok _ => "ok" | .error e => reprStr e
@@ -85,6 +161,16 @@ def step (c : Case) (line : String) : Case × List String :=
   | ["CASE", id, co, mx, root, core] =>
     ({ id := id, cfg := { coreOn := co == "1", maxMsg := intOf mx }, root := natOf root, core := natOf core }, [])
   | ["FILE", cn, em] => ({ c with files := c.files.push { coreName := cn == "1", empty := em == "1" } }, [])
+  | ["PCASE", id, co, mx] => ({ id := id, cfg := { coreOn := co == "1", maxMsg := intOf mx }, pmode := true }, [])
+  | ["PFILE", path, em] =>
+    ({ c with files := c.files.push { empty := em == "1" }, paths := c.paths.push (apathOf path), itexts := c.itexts.push [] }, [])
+  | "IT" :: r => ({ c with itexts := c.itexts.modify (c.itexts.size - 1) (fun _ => r.map textOf) }, [])
+  | ["CWD", p] => ({ c with cwd := apathOf p }, [])
+  | ["ROOT", t] => ({ c with rootText := textOf t }, [])
+  | ["COREPATH", p] => ({ c with corePath := apathOf p }, [])
+  | ["DIR", p] => ({ c with dirs := c.dirs ++ [apathOf p] }, [])
+  | ["LINK", l, t] => ({ c with links := c.links ++ [(apathOf l, apathOf t)] }, [])
+  | ["OTHER", p] => ({ c with others := c.others ++ [apathOf p] }, [])
   | "M" :: r => (updLast c (fun f => { f with mdata := r }), [])
   | "I" :: r => (updLast c (fun f => { f with imports := r.map parseImp }), [])
   | "C" :: r => (updLast c (fun f => { f with consts := r }), [])
@@ -94,6 +180,9 @@ def step (c : Case) (line : String) : Case × List String :=
   | "D" :: r => (updLast c (fun f => { f with modules := r.map pairOf }), [])
   | "T" :: r => (updLast c (fun f => { f with structs := r }), [])
   | "G" :: r => (updLast c (fun f => { f with msgs := r.map parseMsg }), [])
+  | ["RX", mx, tok, reObs, implObs] => ({ c with special := rxCase c.id (intOf mx) tok reObs implObs }, [])
+  | "CLS" :: kind :: pts => ({ c with special := clsCase c.id kind (pts.map natOf) }, [])
+  | ["CASE", id] => ({ id := id }, [])
   | ["OBS", "ok"] => ({ c with obsOk := true }, [])
   | ["OBS", "err", cls] => ({ c with obsOk := false, obsCls := cls }, [])
   | "TM" :: r => ({ c with obs := { c.obs with mdata := r } }, [])
